@@ -58,9 +58,53 @@ func splitNames(s string) []string {
 
 // loadWorkbook parses the messages sheet into rows with their dependencies.
 func loadWorkbook(data []byte) (*xlsx.File, []*wbMsg, error) {
+	wb, msgs, _, err := loadWorkbookT(data)
+	return wb, msgs, err
+}
+
+type wbType struct {
+	Name  string                 `json:"name"`
+	B     int                    `json:"b"`
+	Vals  [][]string             `json:"vals"`
+	Found int                    `json:"found"`
+	Obs   map[string]interface{} `json:"obs"`
+	camel string
+}
+
+var typeRenames = map[string]string{"activity": "activity_mode", "file": "file_type"}
+
+func loadWorkbookT(data []byte) (*xlsx.File, []*wbMsg, []*wbType, error) {
 	wb, err := xlsx.OpenBinary(data)
 	if err != nil {
-		return nil, nil, err
+		return nil, nil, nil, err
+	}
+	var types []*wbType
+	var curT *wbType
+	for _, r := range wb.Sheets[0].Rows[1:] {
+		if n := cellStr(r, 0); n != "" {
+			curT = nil
+			if n == "date_time" || n == "local_date_time" {
+				continue
+			}
+			bi, ok := baseIdxByName[cellStr(r, 1)]
+			if !ok {
+				continue
+			}
+			name := n
+			if rn, ok := typeRenames[n]; ok {
+				name = rn
+			}
+			curT = &wbType{Name: normName(name), B: bi, Vals: [][]string{}, Obs: map[string]interface{}{"bits": 0, "consts": [][]string{}}}
+			types = append(types, curT)
+			continue
+		}
+		if curT != nil && cellStr(r, 2) != "" {
+			v, err := strconv.ParseUint(cellStr(r, 3), 0, 64)
+			if err != nil {
+				continue
+			}
+			curT.Vals = append(curT.Vals, []string{normName(cellStr(r, 2)), strconv.FormatUint(v, 10)})
+		}
 	}
 	typeBase := map[string]string{}
 	for _, r := range wb.Sheets[0].Rows[1:] {
@@ -118,7 +162,7 @@ func loadWorkbook(data []byte) (*xlsx.File, []*wbMsg, error) {
 			}
 		}
 	}
-	return wb, msgs, nil
+	return wb, msgs, types, nil
 }
 
 // selectRows disables a seeded random dependency-closed set of enabled rows.
@@ -372,7 +416,7 @@ func runC19(c *Ctx) {
 			defer func() { <-sem }()
 			rng := newRng(c.Seed*7919 + int64(ji))
 			data := mustRead(filepath.Join(repoDir, "cmd/fitgen/internal/profile/testdata", j.wb+".xlsx"))
-			wb, msgs, err := loadWorkbook(data)
+			wb, msgs, wtypes, err := loadWorkbookT(data)
 			if err != nil {
 				c.die("workbook %s: %v", j.wb, err)
 			}
@@ -437,7 +481,29 @@ func runC19(c *Ctx) {
 			res["wantmajor"], res["wantminor"] = maj, min
 			res["versionline"], res["major"], res["minor"], res["compiles"] = 0, -1, -1, 0
 			res["msgs"] = []interface{}{}
+			res["types"] = []interface{}{}
 			if res["exit1"] == 0 && res["exit2"] == 0 {
+				if gc, gb, err := parseTypesGo(filepath.Join(outs[0], "types.go")); err == nil {
+					byNorm := map[string]string{}
+					for tn := range gb {
+						byNorm[normName(tn)] = tn
+					}
+					for _, wt := range wtypes {
+						tn, ok := byNorm[wt.Name]
+						if !ok {
+							continue
+						}
+						wt.Found = 1
+						cs := [][]string{}
+						for _, ce := range gc[tn] {
+							cs = append(cs, []string{normName(ce.Name), ce.V})
+						}
+						wt.Obs = map[string]interface{}{"bits": gb[tn], "consts": cs}
+					}
+					res["types"] = wtypes
+				} else {
+					logs += "types.go: " + err.Error()
+				}
 				prof := string(mustRead(filepath.Join(outs[0], "profile.go")))
 				vl := 1
 				for _, f := range []string{"types.go", "messages.go", "profile.go"} {
@@ -488,6 +554,19 @@ func runC19(c *Ctx) {
 	}
 	c.Cov["programs"] = len(results)
 	c.Cov["disagreements_checked"] = len(mm)
+	ntypes, nconsts := 0, 0
+	for _, res := range results {
+		if ts, ok := res["types"].([]*wbType); ok {
+			for _, t := range ts {
+				if t.Found == 1 {
+					ntypes++
+					nconsts += len(t.Vals)
+				}
+			}
+		}
+	}
+	c.Cov["types_checked"] = ntypes
+	c.Cov["type_value_rows_checked"] = nconsts
 	c.Cov["workbook_rows_checked"] = nrows
 	c.Cov["evaluations"] = len(results)
 	c.Cov["distinct_nontrivial"] = len(results)
